@@ -4,7 +4,7 @@
 # and run quick checks against it (default: the check of <ID>). Expect exit 0. Stores benign/<ID>-K/{patch.diff,notes.md,meta.json}.
 id="$1"; shift; checks="$@"; [ -n "$checks" ] || checks=$id
 [ "$checks" = all ] && checks=$(seq -f 'C%02g' 1 20)
-src=/tmp/benign-$id/_deliver
+rnd="${BENIGN_ROUND:-}"; src=/tmp/benign$rnd-$id/_deliver
 export GOFLAGS=-mod=mod GOPROXY=off GOSUMDB=off GOTOOLCHAIN=local
 for p in $src/patch-*.diff; do
   [ -s "$p" ] || continue
@@ -14,7 +14,7 @@ for p in $src/patch-*.diff; do
   if ! (cd $work/repo && git apply $p 2> $work/apply.err); then echo "$id-$k: patch does not apply"; rm -rf $work; continue; fi
   (cd $work/repo && go build ./... > $work/build.log 2>&1); b=$?
   (cd $work/repo && go test -vet=off -count=1 ./... > $work/suite.log 2>&1); s=$?
-  dest=/verif/benign/$id-$k; mkdir -p $dest; cp $p $dest/patch.diff; cp $src/notes.md $dest/notes.md 2>/dev/null
+  dest=/verif/benign/$id-${rnd:+r$rnd-}$k; mkdir -p $dest; cp $p $dest/patch.diff; cp $src/notes.md $dest/notes.md 2>/dev/null
   res="{}"
   for c in $checks; do
     (cd /verif && VERIF_REPO=$work/repo VERIF_EVIDENCE_DIR=$work/ev VERIF_FAIL_DIR=$dest/fails-$c ./check $c quick > $work/check-$c.txt 2>&1); rc=$?
